@@ -60,7 +60,7 @@ def run_gen():
     ok, out = build_gen()
     if not ok:
         return False, "translator build failed:\n" + out
-    rc, out = sh([BUILD + "/gen", "-repo", REPO, "-out", COQ + "/gen", "-dict", BUILD + "/dict.txt"], timeout=300)
+    rc, out = sh([BUILD + "/gen", "-repo", REPO, "-out", COQ + "/gen", "-dict", BUILD + "/dict.txt", "-dump", BUILD + "/tables.txt"], timeout=300)
     return rc == 0, out
 
 
